@@ -594,12 +594,15 @@ def table_row_swapped_jw(row, primary_ops: List, op2idx: Dict):
 
     # remember: all possible operators: I Z + -
     # new sigma_z produced for dof1 by op2
-    op1_new_sigma_z = (op1.split_symbol.count("sigma_+") + op1.split_symbol.count("sigma_-")) % 2
+    def _cnt(op, names):
+        return sum(op.split_symbol.count(n) for n in names)
+    PLUS, MINUS, ZZ = ("sigma_+", "+"), ("sigma_-", "-"), ("sigma_z", "Z")
+    op1_new_sigma_z = (_cnt(op1, PLUS) + _cnt(op1, MINUS)) % 2
     # similar except by op2
-    op2_new_sigma_z = (op2.split_symbol.count("sigma_+") + op2.split_symbol.count("sigma_-")) % 2
+    op2_new_sigma_z = (_cnt(op2, PLUS) + _cnt(op2, MINUS)) % 2
     # determine the coefficient
-    op1_n_sigma_plus = op1.split_symbol.count("sigma_+")
-    op1_n_sigma_minus = op1.split_symbol.count("sigma_-")
+    op1_n_sigma_plus = _cnt(op1, PLUS)
+    op1_n_sigma_minus = _cnt(op1, MINUS)
     assert op1_n_sigma_plus in [0, 1]
     assert op1_n_sigma_minus in [0, 1]
     n_permutes = op2_new_sigma_z * (op1_n_sigma_plus + op1_n_sigma_minus)
@@ -610,12 +613,12 @@ def table_row_swapped_jw(row, primary_ops: List, op2idx: Dict):
         if symbol_list[0] == "I":
             assert len(symbol_list) == 1
             new_op = Op("sigma_z", op.dofs[0], qn=0)
-        elif symbol_list[0] == "sigma_z":
+        elif symbol_list[0] in ("sigma_z", "Z"):
             if len(symbol_list) == 1:
                 new_op = Op.identity(op.dofs[0])
             else:
                 new_op = Op(" ".join(symbol_list[1:]), op.dofs[1:], qn=op.qn_list[1:])
-        elif symbol_list[0] == "sigma_+" or symbol_list[0] == "sigma_-":
+        elif symbol_list[0] in ("sigma_+", "sigma_-", "+", "-"):
             new_op = Op("sigma_z " + op.symbol, [op.dofs[0]] + op.dofs, qn=[0] + op.qn_list)
         else:
             assert False
